@@ -418,6 +418,16 @@ func (r *Run) Finish(t *testing.T) {
 	}
 
 	samples := append(append([]interface{}{}, r.firstSample...), r.lateSample...)
+	if len(samples) == 0 {
+		for _, v := range r.violations {
+			if v.Case != nil {
+				samples = append(samples, v.Case)
+			}
+		}
+	}
+	if len(samples) == 0 {
+		samples = append(samples, "no non-trivial case was completed in this run (it ended early)")
+	}
 	cov := map[string]interface{}{
 		"evaluations":         r.evals,
 		"distinct_nontrivial": len(r.distinct),
